@@ -268,13 +268,17 @@ func init() {
 			c17DagExhaustive(c)
 		}
 		for i := 0; i < c.N; i++ {
-			switch k := c.Rng.Intn(10); {
-			case k < 4:
+			switch k := c.Rng.Intn(20); {
+			case k < 5:
 				c17DagRandom(c)
-			case k < 6:
+			case k < 8:
 				c17InstallRandom(c)
-			default:
+			case k < 12:
 				c17UpdateRandom(c)
+			case k < 16:
+				c17ResolveRandom(c)
+			default:
+				c17ReconcileRandom(c)
 			}
 		}
 	})
@@ -307,6 +311,16 @@ func c17Replay(c *Ctx, raw []byte) {
 		var s c17UpdScn
 		if jsonUnmarshalStrict(raw, &s) == nil {
 			c17UpdEmit(c, s, "corpus/update")
+		}
+	case "resolve":
+		var s c17ResScn
+		if jsonUnmarshalStrict(raw, &s) == nil {
+			c17ResEmit(c, s, "corpus")
+		}
+	case "reconcile":
+		var s c17RecScn
+		if jsonUnmarshalStrict(raw, &s) == nil {
+			c17RecEmit(c, s, "corpus")
 		}
 	}
 }
